@@ -23,7 +23,7 @@ def pairOut : Option (Float × Float) → String
 /-- ops
   `ll weibull a b g <data>` · `ll expweibull a b d <data>` · `ll normal l2pi mu sigma <data>` ·
   `ll lognormal l2pi mu sigma <data>` · `ll gengamma m c lam <data>` · `ll vonmises l2pi kappa mu <data>` ·
-  `ll gamma a l s <data>`                                       → `OK <sum of log-densities>`
+  `ll gamma a l s <data>` · `ll gumbel l s <data>`              → `OK <sum of log-densities>`
   `fit normal <data>` · `fit lognormal <data>`                  → `OK p1 p2`
   `fit normfit <data>`                                          → `OK mu_norm sigma_norm mu sigma` -/
 def handleC12 : Handler := fun st toks =>
@@ -68,6 +68,10 @@ def handleC12 : Handler := fun st toks =>
     match takeFloats rest with
     | some (xs, _) =>
       some (llOut (sumLogPdf (gammaLogPdf log lgamma (fOfTok a) (fOfTok l) (fOfTok s)) xs))
+    | none => some "ERR parse"
+  | "ll" :: "gumbel" :: l :: s :: rest =>
+    match takeFloats rest with
+    | some (xs, _) => some (llOut (sumLogPdf (gumbelLogPdf log exp (fOfTok l) (fOfTok s)) xs))
     | none => some "ERR parse"
   | "fit" :: "normal" :: rest =>
     match takeFloats rest with
